@@ -182,12 +182,20 @@ static int do_replay(const Str &path, bool quiet) {
         if (!quiet) printf("replayed: property=%s worker share %s/%s completes without violation\n", prop.c_str(), p[1].c_str(), p[2].c_str());
         return 0;
     }
-    Ctx ctx; ctx.prop = prop; ctx.tier = "quick"; ctx.replay = true; ctx.t_start = now_s();
-    g_progress_ptr = &ctx.progress; guard_install();
-    // executed twice: the observations must be identical (determinism)
-    c->replay(ctx, unesc(enc));
-    Ctx ctx2; ctx2.prop = prop; ctx2.tier = "quick"; ctx2.replay = true; g_progress_ptr = &ctx2.progress;
-    c->replay(ctx2, unesc(enc));
+    // executed twice, each time in its own forked child (so that state the library may keep - the very thing C20 looks
+    // for - cannot make the second execution differ from the first): the observations must be identical
+    Ctx ctx, ctx2; Ctx *both[2] = { &ctx, &ctx2 };
+    mkdir("build", 0755); mkdir("build/tmp", 0755);
+    for (int i = 0; i < 2; i++) {
+        Str tmp = fmt("build/tmp/replay.%d.%d", (int)getpid(), i); fflush(stdout);
+        pid_t pid = fork();
+        if (pid == 0) { Ctx cc; cc.prop = prop; cc.tier = "quick"; cc.replay = true; cc.t_start = now_s(); g_progress_ptr = &cc.progress; guard_install(); c->replay(cc, unesc(enc)); write_result(cc, tmp); _exit(0); }
+        int stt = 0; waitpid(pid, &stt, 0);
+        both[i]->prop = prop;
+        if (WIFSIGNALED(stt)) both[i]->violation("", unesc(enc), fmt("the replay process was killed by %s", signame(WTERMSIG(stt))));
+        else if (!read_result(*both[i], tmp)) { fprintf(stderr, "HARNESS-ERROR replay produced no result\n"); unlink(tmp.c_str()); return 2; }
+        unlink(tmp.c_str());
+    }
     if (ctx.viols.size() != ctx2.viols.size()) { printf("REPLAY-NONDETERMINISTIC %s\n", path.c_str()); return 2; }
     for (size_t i = 0; i < ctx.viols.size(); i++)
         if (ctx.viols[i].detail != ctx2.viols[i].detail || ctx.viols[i].finding != ctx2.viols[i].finding) { printf("REPLAY-NONDETERMINISTIC %s\n", path.c_str()); return 2; }
